@@ -42,7 +42,7 @@ func VH_C03_Step(p []int) {
 		vhAssertContent(pre.s, model, "read-only-unchanged")
 		vhInv(pre.s, cfg, "inv")
 		vhAssertCapacity(pre.s, cfg, "post")
-		verifReach("end-ro")
+		verifReach("end")
 		return
 	}
 	switch p[3] {
